@@ -96,6 +96,7 @@ fn strategy(tier: Tier) -> BoxedStrategy<Case> {
         .prop_map(|(pieces_seed, essential, via_have, unchoke_delay_s, outgoing, interested, late_blocks)| PeerSpec { pieces_seed, essential, via_have, unchoke_delay_s, outgoing, interested, late_blocks });
     let act = prop_oneof![
         8 => (1u8..4).prop_map(Act::Serve),
+        1 => (30u8..70).prop_map(Act::Serve),
         1 => Just(Act::Choke),
         3 => Just(Act::Unchoke),
         1 => Just(Act::KeepAlive),
@@ -108,6 +109,17 @@ fn strategy(tier: Tier) -> BoxedStrategy<Case> {
     (geo_strategy(tier), vec(peer, 1..=4), vec((any::<u16>(), act), 0..50), prop_oneof![Just(0u8), any::<u8>()], any::<u64>())
         .prop_map(|(geo, mut peers, script, cut_rate, seed)| {
             peers[0].essential = true;
+            if seed % 12 == 0 {
+                // template "late runner": many tiny pieces; the second peer's task is not scheduled while the first peer
+                // delivers dozens of pieces (more completions than any internal queue holds), then it runs again
+                let n = 40 + (seed >> 8) as usize % 50;
+                let geo = Geometry::single(1, n, seed);
+                let mk = |s: u64| PeerSpec { pieces_seed: s, essential: true, via_have: 0, unchoke_delay_s: 0, outgoing: s % 2 == 0, interested: false, late_blocks: false };
+                let peers = vec![mk(seed | 1), mk(seed >> 3)];
+                let mut pre: Vec<(u16, Act)> = vec![(65535, Act::Stall(6)), (0, Act::Unchoke), (0, Act::Serve(69)), (0, Act::Serve(69)), (0, Act::Serve(69)), (0, Act::Idle(1))];
+                pre.extend(script);
+                return Case { geo, peers, script: pre, cut_rate: 0, seed };
+            }
             Case { geo, peers, script, cut_rate, seed }
         })
         .boxed()
@@ -299,8 +311,17 @@ pub fn check(c: &Case) -> Outcome {
                 let conn = net.peers[hs[k].p].conn;
                 match act {
                     Act::Serve(m) => {
-                        let h = &hs[k];
-                        serve(w, &mut net, &mut ctx, h, &t, *m as usize).await;
+                        // up to m blocks, one after the other: the client's next requests arrive in between
+                        let mut served = 0usize;
+                        while served < *m as usize {
+                            let h = &hs[k];
+                            let n = serve(w, &mut net, &mut ctx, h, &t, 1).await;
+                            net.observe(w).await;
+                            if n == 0 || w.fatal().is_some() {
+                                break;
+                            }
+                            served += n;
+                        }
                     }
                     Act::Choke => {
                         let b = wire::encode(&RFrame::Choke);
@@ -467,6 +488,12 @@ pub fn check(c: &Case) -> Outcome {
                 for rp in net.peers.iter().filter(|rp| rp.id == net.peers[h.p.min(net.peers.len() - 1)].id) {
                     let _ = rp;
                 }
+            }
+            if std::env::var("VERIF_DEBUG").is_ok() {
+                for rp in &net.peers {
+                    eprintln!("peer {} closed_by_us={} alive={} reason={:?} finished={:?}", rp.addr, rp.closed, w.handler_alive(rp.conn), w.conns[rp.conn].kill_reason, w.conns[rp.conn].finished_at);
+                }
+                eprintln!("cmds: {:?}", w.cmds.iter().map(|c| format!("{}@{}", c.kind, &c.addr[5..8])).collect::<Vec<_>>());
             }
             for rp in &net.peers {
                 if rp.closed {
